@@ -382,9 +382,29 @@ func runCheck(id, tier, repoDir, verifDir string, debug, claim, keep bool) int {
 			}
 			report(ob, r.VC, "")
 		}
+		coverStatus := map[string]string{}
 		for _, ob := range r.Covers {
-			nOb++
+			coverStatus[ob.Name] = ob.Status
+		}
+		for _, ob := range r.Covers {
 			solverTime += ob.TimeS
+			if ob.Sub == "callpre" {
+				continue // only consulted through its partner
+			}
+			if ob.Sub == "callret" {
+				if ob.Status == "unsat" && coverStatus[ob.PairOf] == "sat" && !isDeclaredDead(r.Contract, ob.Name) {
+					nOb++
+					recs = append(recs, oblRecord{ob.Name, ob.Kind, ob.Status, ob.Solver, round3(ob.TimeS), ob.Desc, ""})
+					report(ob, r.VC, "vacuity guard: the call site is reachable but no state satisfies what the callee's contract ensures there, so everything after this call would pass vacuously")
+				} else if ob.Status == "sat" {
+					nOb++
+					nDis++
+					backends[ob.Solver]++
+					recs = append(recs, oblRecord{ob.Name, ob.Kind, ob.Status, ob.Solver, round3(ob.TimeS), ob.Desc, ""})
+				}
+				continue
+			}
+			nOb++
 			recs = append(recs, oblRecord{ob.Name, ob.Kind, ob.Status, ob.Solver, round3(ob.TimeS), ob.Desc, ""})
 			if ob.Status == "unsat" && isDeclaredDead(r.Contract, ob.Name) {
 				nDis++
